@@ -864,7 +864,10 @@ class Problem:
             )
         else:
             include_point = all(
-                fun_val < fun_filter or maxcv_val < maxcv_filter
+                np.isnan(fun_filter)
+                or np.isnan(maxcv_filter)
+                or fun_val < fun_filter
+                or maxcv_val < maxcv_filter
                 for fun_filter, maxcv_filter in zip(
                     self._fun_filter,
                     self._maxcv_filter,
